@@ -16,6 +16,12 @@ def main(run: Run) -> int:
     res = xh.run_jobs(run, "vf.harness.rc_glue", glue.glue_jobs("C04", run.tier))
     for r in res:
         xh.default_verdict(run, r, feats, bound="selector-built expressions of this partition x all states")
+    from vf.harness import rc_glue
+
+    tjobs = [{"fn": "glue_text", "globals": {"MODE": "C04", "TEXT": i}, "timeout": 400, "bound": f"'{t}' (repeated requirement keys) x all 27 assignments x yields<=1 of key 2"} for i, t in enumerate(rc_glue.TEXTS)]
+    for r, j in zip(xh.run_jobs(run, "vf.harness.rc_glue", tjobs), tjobs):
+        xh.default_verdict(run, r, feats, bound=j["bound"])
+    run.bounds["repeated_keys"] = f"{len(rc_glue.TEXTS)} expressions of 4-5 operands with repeated requirement keys x all assignments"
     run.bounds.update(glue.glue_bounds(run.tier))
     run.bounds["step"] = "4 callbacks x 21 x 21 abstract operand states (RC x3, Hint, UFC, EvaluatedComposition x16)"
     common_assumptions(run)
